@@ -60,6 +60,14 @@ def main():
                     if not ln[12:16].strip().startswith('H'):
                         fh.write(ln[:80].rstrip() + '\n')
             fh.write('TER   \n')
+    # an N-terminal Asp (penalised: coupled to its own N+) salt-bridged to a Lys of another fragment
+    with open(os.path.join(OUT, 'nterm_ASP_LYS.pdb'), 'w') as fh:
+        for nums in ((60, 61), (42, 43, 44)):
+            for k in seg(r, nums):
+                for ln in r[k]:
+                    if not ln[12:16].strip().startswith('H'):
+                        fh.write(ln[:80].rstrip() + '\n')
+            fh.write('TER   \n')
     # a disulfide from 3SGB (chain E)
     re_ = residues(os.path.join(SRC, '3SGB.pdb'), 'E')
     sg = [(k, [float(l[30:38]), float(l[38:46]), float(l[46:54])]) for k in re_ for l in re_[k] if l[17:20] == 'CYS' and l[12:16].strip() == 'SG']
@@ -73,6 +81,30 @@ def main():
         ks = list(re_)
         i1, i2 = ks.index(best[0]), ks.index(best[1])
         cut(re_, ks[i1 - 1:i1 + 2] + ks[i2 - 1:i2 + 2], 'pair_CYS_CYS_bridge')
+    # the same disulfide rigidly re-oriented so that the S-S bond lies along x (coordinates re-rounded to 0.001):
+    # a pose in which the two sulfurs can fall into cells that are two apart if the cells are too narrow
+    import math
+    src = open(os.path.join(OUT, 'pair_CYS_CYS_bridge.pdb')).read().split('\n')
+    at = [l for l in src if l.startswith('ATOM')]
+    sg = [[float(l[30:38]), float(l[38:46]), float(l[46:54])] for l in at if l[12:16].strip() == 'SG']
+    if len(sg) == 2:
+        v = [b - a for a, b in zip(sg[0], sg[1])]
+        n = math.sqrt(sum(x * x for x in v))
+        e1 = [x / n for x in v]
+        h = [0.0, 0.0, 1.0] if abs(e1[2]) < 0.9 else [0.0, 1.0, 0.0]
+        d = sum(a * b for a, b in zip(h, e1))
+        e2 = [a - d * b for a, b in zip(h, e1)]
+        n2 = math.sqrt(sum(x * x for x in e2))
+        e2 = [x / n2 for x in e2]
+        e3 = [e1[1] * e2[2] - e1[2] * e2[1], e1[2] * e2[0] - e1[0] * e2[2], e1[0] * e2[1] - e1[1] * e2[0]]
+        with open(os.path.join(OUT, 'pair_CYS_CYS_bridge_along_x.pdb'), 'w') as fh:
+            for l in src:
+                if l.startswith('ATOM'):
+                    p = [float(l[30:38]), float(l[38:46]), float(l[46:54])]
+                    q = [sum(a * b for a, b in zip(e, p)) for e in (e1, e2, e3)]
+                    l = l[:30] + '%8.3f%8.3f%8.3f' % tuple(q) + l[54:]
+                if l:
+                    fh.write(l + '\n')
     # the ligand of 1HPX with the residues lining it is too big; take the ligand alone
     with open(os.path.join(OUT, 'lig_KNI.pdb'), 'w') as fh:
         for ln in open(os.path.join(SRC, '1HPX.pdb')):
